@@ -66,6 +66,10 @@ func (s *side) client(as string) *s3c.Client {
 	if as == "" {
 		return s.cl
 	}
+	if strings.HasSuffix(as, "+wrong-secret") {
+		// an existing access key with a secret that is not its own: the signature cannot be right
+		return s.cl.With(strings.TrimSuffix(as, "+wrong-secret"), "not-the-secret-of-this-key")
+	}
 	return s.cl.With(as, users[as])
 }
 
@@ -940,6 +944,11 @@ func Run(c *ev.Ctx) int {
 	go func() {
 		defer wg.Done()
 		laneCreateAgain(c, proxyExtraEnv)
+	}()
+	wg.Add(1)
+	go func() {
+		defer wg.Done()
+		laneWrongSecret(c, proxyExtraEnv)
 	}()
 	ch := make(chan job)
 	for w := 0; w < workers; w++ {
